@@ -25,14 +25,24 @@ theorem threads_bounds (e : PoolEnv) (hp : 1 ≤ e.physical) : 1 ≤ poolThreads
       exact Nat.le_min.mpr ⟨h1, hp⟩
     · exact Nat.min_le_right _ _
 
-theorem configNumThreads_some (e : PoolEnv) (v : String) (hv : e.numThreads = some v) :
+theorem configNumThreads_some (e : PoolEnv) (v : String) (hv : requestedVar e = some v) :
     configNumThreads e = (parseUsize v).getD e.physical := by
   unfold configNumThreads; rw [hv]
-theorem configNumThreads_none (e : PoolEnv) (hv : e.numThreads = none) : configNumThreads e = e.physical := by
+theorem configNumThreads_none (e : PoolEnv) (hv : requestedVar e = none) : configNumThreads e = e.physical := by
   unfold configNumThreads; rw [hv]
 
+/-- which variable is consulted: `CFAVML_NUM_THREADS` whenever it is set; without `env-var-compat` nothing else;
+with it `OMP_NUM_THREADS`, then `OPENBLAS_NUM_THREADS` -/
+theorem requestedVar_cfavml (e : PoolEnv) (v : String) (hv : e.numThreads = some v) : requestedVar e = some v := by
+  unfold requestedVar; rw [hv]
+theorem requestedVar_plain (e : PoolEnv) (hc : e.compat = false) : requestedVar e = e.numThreads := by
+  unfold requestedVar; rw [hc]; cases e.numThreads <;> rfl
+theorem requestedVar_compat (e : PoolEnv) (hc : e.compat = true) (hn : e.numThreads = none) :
+    requestedVar e = (match e.ompThreads with | some v => some v | none => e.openblasThreads) := by
+  unfold requestedVar; rw [hn, hc]; rfl
+
 /-- … and exactly `min(requested, physical)` for a valid positive request -/
-theorem threads_exact (e : PoolEnv) (v : String) (r : Nat) (hv : e.numThreads = some v)
+theorem threads_exact (e : PoolEnv) (v : String) (r : Nat) (hv : requestedVar e = some v)
     (hparse : parseUsize v = some r) (hr : 0 < r) : poolThreads e = min r e.physical := by
   unfold poolThreads
   rw [configNumThreads_some e v hv, hparse]
@@ -42,7 +52,7 @@ theorem threads_exact (e : PoolEnv) (v : String) (r : Nat) (hv : e.numThreads = 
   · rfl
 
 /-- an unset, unparsable or zero request gives the physical core count -/
-theorem threads_default (e : PoolEnv) (h : e.numThreads = none ∨ ∃ v, e.numThreads = some v ∧ (parseUsize v = none ∨ parseUsize v = some 0)) :
+theorem threads_default (e : PoolEnv) (h : requestedVar e = none ∨ ∃ v, requestedVar e = some v ∧ (parseUsize v = none ∨ parseUsize v = some 0)) :
     poolThreads e = e.physical := by
   unfold poolThreads
   rcases h with h | ⟨v, hv, hp | hp⟩
@@ -57,6 +67,18 @@ theorem threads_default (e : PoolEnv) (h : e.numThreads = none ∨ ∃ v, e.numT
     · exact Nat.min_self _
   · rw [configNumThreads_some e v hv, hp]
     rfl
+
+/-- the property as stated for the variable the documentation names, `CFAVML_NUM_THREADS` -/
+theorem threads_exact_cfavml (e : PoolEnv) (v : String) (r : Nat) (hv : e.numThreads = some v)
+    (hparse : parseUsize v = some r) (hr : 0 < r) : poolThreads e = min r e.physical :=
+  threads_exact e v r (requestedVar_cfavml e v hv) hparse hr
+
+/-- `CFAVML_DEBUG`, `CFAVML_NO_PINNING` and `CFAVML_NO_CACHE_THREADPOOL` have no influence on the size of the pool, and
+`CFAVML_DEBUG` none on which pool a caller receives -/
+theorem threads_indep (e : PoolEnv) (d p c : Option String) :
+    poolThreads { e with debug := d, noPinning := p, noCache := c } = poolThreads e := rfl
+theorem pool_indep_debug (e : PoolEnv) (d : Option String) (s : PoolState) :
+    getOrInitPool { e with debug := d } s = getOrInitPool e s := rfl
 
 /-- the defect fixed in 3dda54f, as a model fact: handing rayon `min(0, physical) = 0` threads lets rayon
 choose (e.g. `RAYON_NUM_THREADS = 40 > physical`) -/
@@ -151,5 +173,12 @@ theorem init_inv (e : PoolEnv) : Inv e PoolState.init := rfl
 example : parseUsize "8" = some 8 ∧ parseUsize "+5" = some 5 ∧ parseUsize "0" = some 0 ∧ parseUsize "-3" = none
     ∧ parseUsize "abc" = none ∧ parseUsize "" = none ∧ parseUsize "99999999999999999999999" = none
     ∧ parseUsize " 4" = none := by decide
+
+/-- non-vacuity of the precedence: an unparsable `CFAVML_NUM_THREADS` hides `OMP_NUM_THREADS`; with the compat feature
+and no `CFAVML_NUM_THREADS`, `OMP_NUM_THREADS` beats `OPENBLAS_NUM_THREADS` -/
+example : poolThreads { numThreads := some "abc", noCache := none, noPinning := none, physical := 8, compat := true, ompThreads := some "2" } = 8
+    ∧ poolThreads { numThreads := none, noCache := none, noPinning := none, physical := 8, compat := true, ompThreads := some "2", openblasThreads := some "3" } = 2
+    ∧ poolThreads { numThreads := none, noCache := none, noPinning := none, physical := 8, compat := true, openblasThreads := some "3" } = 3
+    ∧ poolThreads { numThreads := none, noCache := none, noPinning := none, physical := 8, compat := false, ompThreads := some "2" } = 8 := by decide
 
 end Cfavml.Thm.C17
